@@ -489,6 +489,11 @@ async fn gen_proc(sim: &mut Sim, rng: &mut Prng, stats: &mut Stats, name: &str) 
                 }
                 sim.eval(n);
                 sim.tick(kv_grace).await;
+                if rng.chance(1, 2) {
+                    // (half of the time the evaluation comes first: an evaluation does not collect
+                    // keys, so the verdict it publishes is about the state it leaves)
+                    sim.eval(n);
+                }
                 sim.gc(n);
                 if m != n {
                     sim.gc(m);
@@ -531,7 +536,7 @@ async fn gen_proc(sim: &mut Sim, rng: &mut Prng, stats: &mut Stats, name: &str) 
                     });
                     if let Some((kvs, mx, gc)) = fetched {
                         if kvs.iter().all(|(_, v, _, _)| v.len() < 4_000) {
-                            sim.raw_record("HONEST", "ok");
+                            sim.raw_record(&format!("HONEST {m}"), "ok");
                             sim.catchup(n, &xid, &kvs, mx, gc);
                             stats.bump("op_catchup_from_peer");
                         }
@@ -908,7 +913,11 @@ pub async fn gen_delta(sim: &mut Sim, rng: &mut Prng, stats: &mut Stats, name: &
                     nm,
                     generation,
                     std::net::SocketAddr::new(
-                        std::net::IpAddr::V4(std::net::Ipv4Addr::new((r >> 8) as u8 | 1, (r >> 16) as u8, (r >> 24) as u8, (r >> 32) as u8 | 1)),
+                        if r & 1 == 0 {
+                            std::net::IpAddr::V4(std::net::Ipv4Addr::new((r >> 8) as u8 | 1, (r >> 16) as u8, (r >> 24) as u8, (r >> 32) as u8 | 1))
+                        } else {
+                            std::net::IpAddr::V6(std::net::Ipv6Addr::from(((r as u128) << 64 | rng.next_u64() as u128) | (0x2001u128 << 112)))
+                        },
                         1024 + (r >> 40) as u16 % 60_000,
                     ),
                 )
@@ -1322,8 +1331,20 @@ pub async fn gen_wire(sim: &mut Sim, rng: &mut Prng, stats: &mut Stats, name: &s
                 1 => synack_bytes(&entries, &ops, block, compress),
                 _ => ack_bytes(&ops, block, compress),
             };
-            sim.decode(&bytes);
+            sim.decode_expect_ok(&bytes);
             sim.wire_check(&bytes);
+            if rng.chance(1, 6) {
+                // one compressible member state of 20-40 kB in a single compressed block: the layout
+                // bounds a block by its u16 length, not by the writer's default threshold
+                let big: String = "lorem ipsum dolor sit amet ".repeat(rng.range(800, 1500) as usize);
+                let ops = vec![
+                    WOp::Node { id: rand_wid(rng, 0), gc: 0, from: 0 },
+                    WOp::Kv { key: b"big".to_vec(), value: big.into_bytes(), version: 1, status: 0 },
+                ];
+                let bytes = ack_bytes(&ops, 65_535, true);
+                sim.decode_expect_ok(&bytes);
+                stats.bump("wire_large_compressed_block");
+            }
             if rng.chance(1, 3) {
                 // every cut inside the header, the message tag and the first length field
                 for n in 0..bytes.len().min(9) {
@@ -1549,7 +1570,7 @@ pub async fn gen_fd(sim: &mut Sim, rng: &mut Prng, stats: &mut Stats, name: &str
                 sim.eval(0);
                 stats.bump("op_eval");
             }
-            90..=97 => {
+            90..=95 => {
                 // data for a (possibly live) member: an incremental delta raising its max version,
                 // or a reset delta (higher watermark, from 0) that may LOWER its max version
                 let mi = rng.below(2) as usize;
@@ -1573,6 +1594,25 @@ pub async fn gen_fd(sim: &mut Sim, rng: &mut Prng, stats: &mut Stats, name: &str
                         ]
                     };
                     sim.deliver(0, &ack_bytes(&ops, 16384, false));
+                }
+            }
+            96..=97 => {
+                // every member falls silent, is found dead, is removed after the grace period; then
+                // lagging relays replay an increasing ladder of heartbeats that are all LOWER than
+                // the last one observed, with evaluations: nobody may come back
+                sim.eval(0);
+                sim.tick(dead_grace + UNIT).await;
+                sim.eval(0);
+                sim.tick(dead_grace + UNIT).await;
+                sim.eval(0);
+                let mi = rng.below(2) as usize;
+                if hb[mi] >= 8 {
+                    for back in [6u64, 4, 2] {
+                        sim.tick(UNIT * 16).await;
+                        sim.deliver(0, &syn_bytes("c", &[(wids[mi].clone(), hb[mi] - back, 0, 0)]));
+                        sim.eval(0);
+                    }
+                    stats.bump("fd_stale_ladder_after_removal");
                 }
             }
             99..=99 => {
@@ -1686,7 +1726,7 @@ pub async fn gen_listen(sim: &mut Sim, rng: &mut Prng, stats: &mut Stats, name: 
                 sim.calls(n);
                 stats.bump("delete");
             }
-            75..=94 => {
+            75..=92 => {
                 // replicated writes: handshake n -> m, listeners of both sides may fire
                 let m = 1 - n;
                 if let Some(syn) = sim.syn(n) {
@@ -1699,6 +1739,22 @@ pub async fn gen_listen(sim: &mut Sim, rng: &mut Prng, stats: &mut Stats, name: 
                 sim.calls(0);
                 sim.calls(1);
                 stats.bump("handshake");
+            }
+            93..=94 | 98..=98 => {
+                // nested and sibling prefixes around one key: x, xxx (longer than the key, not a prefix
+                // of it), xy (the key itself) and the empty prefix; then the key xy is written
+                let alphabet = ["a", "b", "é", "𝄞"];
+                let x = *rng.pick(&alphabet);
+                let y = *rng.pick(&alphabet);
+                for p in [x.to_string(), format!("{x}{x}{x}"), format!("{x}{y}"), String::new()] {
+                    if sim.nodes[n].subs.len() < 12 {
+                        sim.subscribe(n, next_lid, &p, true);
+                        next_lid += 1;
+                    }
+                }
+                sim.set(n, &format!("{x}{y}"), "v");
+                sim.calls(n);
+                stats.bump("nested_prefixes");
             }
             95..=97 => {
                 // external catch-up on the peer: the fetched state repeats what n already holds
